@@ -85,6 +85,22 @@ def apply():
     core._PATCH_REGISTRATIONS[int] = _int
     core._PATCH_REGISTRATIONS[float] = _float
 
+    # The patching tracer resolves a call of `float` made *from inside the registered override's own
+    # code* to the next lower layer (the real builtin).  The stock patches are now called by our
+    # wrappers, so their code objects must resolve the same way, or `float(realize(x))` inside the
+    # stock `_float` would come back to the wrapper forever.
+    from crosshair import tracers
+
+    _add = tracers.PatchingModule.add
+
+    def add(self, new_overrides):
+        _add(self, new_overrides)
+        for orig, stock in ((bytes, _stock_bytes), (int, _stock_int), (float, _stock_float)):
+            if new_overrides.get(orig) in (_bytes, _int, _float):
+                self.nextfn[(stock.__code__, orig)] = orig
+
+    tracers.PatchingModule.add = add
+
     # (4) slice-local realisation of symbolic strings: realise only the code points in view.
     def _realize_view(self):
         cps = self._codepoints
